@@ -498,6 +498,10 @@ theorem lvlBad_spec (X : SchemaX) (o : VOpts) (sk : List STree) (sibs : List DNo
   | noUniq => cases h
   | badValue => cases h
   | noKey => cases h
+  | noMust => cases h
+  | noReqInst => cases h
+  | noWhen => cases h
+  | xpErr => cases h
 
 theorem dupBad_spec (X : SchemaX) (o : VOpts) (sk : List STree) (sibs : List DNode)
     (hplain : ∀ k ∈ sk, plainNode k = true) (hinfo : ∀ k ∈ sk, InfoFacts X.base k)
